@@ -533,6 +533,10 @@ def load(file, **options):
                 new_signal.add_comment(signal_comment)
                 function = sh.cell(row_num, index['function']).value
 
+        if len(sh.cell(row_num, index['signalName']).value) == 0:
+            # a frame without signals: the row describes the frame only
+            continue
+
         value = str(sh.cell(row_num, index['Value']).value)
         value_name = sh.cell(row_num, index['ValueName']).value
 
